@@ -145,6 +145,8 @@ class RandomForestSampler(MLSurrogateSampler):
         for i in range(num_bins - 1):
             quantiles[i + 1] = np.quantile(y, cutoffs[i + 1])
 
+        # the lowest bin edge must not exceed the losses (they can be negative, e.g. log-likelihoods)
+        quantiles[0] = np.minimum(0.0, np.min(y))
         quantiles[-1] = np.max(y)
 
         y_cat: NDArray[np.int64] = np.digitize(y, quantiles, right=True)
